@@ -331,3 +331,209 @@ def string_truncate(eng, st, site, func, target, args, dty):
     st.cons.append(c_le(nl.lin, n.lin))
     st.cells[cell] = VVec(nl.lin, None, None, v.name, v.elem_ty)
     return [(st, UNIT)]
+
+
+# ------------------------------------------------------------------ iterator adaptors (see lib/iters.py for their step semantics)
+
+def _as_iter(eng, st, v):
+    """IntoIterator view of a value: iterators stay, arrays / slices / vec references become iterators"""
+    if isinstance(v, VIter) or (isinstance(v, VAdt) and (eng.adt_name(v) or "").endswith(("ops::Range", "iter::Rev"))):
+        return v
+    if isinstance(v, VArr):
+        return VIter("array", v.elems, 0, v.name) if v.elems is not None else None
+    if isinstance(v, VRef):
+        t = eng.load(st, v.cell, v.path)
+        if isinstance(t, VIter):
+            return t
+    sl = as_slice(eng, st, v)
+    if sl is not None:
+        return VIter("slice", sl.len, Lin.const(0), sl)
+    return None
+
+
+@stub(r"^std::iter::Iterator::take$|std::iter::Iterator>::take$")
+def iter_take(eng, st, site, func, target, args, dty):
+    it = _as_iter(eng, st, args[0])
+    if it is None or not isinstance(args[1], VInt):
+        return None
+    return [(st, VIter("take", None, args[1].lin, it, None))]
+
+
+@stub(r"^std::iter::Iterator::skip$|std::iter::Iterator>::skip$")
+def iter_skip(eng, st, site, func, target, args, dty):
+    it = _as_iter(eng, st, args[0])
+    n = args[1]
+    if not (isinstance(it, VIter) and isinstance(it.pos, Lin) and it.kind in ("slice", "vec", "chunks", "zip") and isinstance(n, VInt)):
+        return None
+    if it.kind == "slice":
+        ln = it.src.len
+    elif it.kind == "chunks":
+        ln = it.items
+    elif it.kind == "zip":
+        ln = it.items
+    else:
+        vv = st.cells.get(it.src)
+        ln = vv.len if isinstance(vv, VVec) else None
+    if ln is None:
+        return None
+    out = []
+    s1 = st.fork()
+    if eng.add(s1, c_le(it.pos + n.lin, ln)):
+        out.append((s1, VIter(it.kind, it.items, it.pos + n.lin, it.src, it.extra)))
+    if eng.add(st, c_lt(ln, it.pos + n.lin)):
+        out.append((st, VIter(it.kind, it.items, ln, it.src, it.extra)))       # skipping past the end leaves it exhausted
+    return out
+
+
+@stub(r"^std::iter::Iterator::enumerate$|std::iter::Iterator>::enumerate$")
+def iter_enumerate(eng, st, site, func, target, args, dty):
+    it = _as_iter(eng, st, args[0])
+    if it is None:
+        return None
+    return [(st, VIter("enumerate", None, Lin.const(0), it, None))]
+
+
+@stub(r"^std::iter::Iterator::(copied|cloned)$|std::iter::Iterator>::(copied|cloned)$")
+def iter_copied(eng, st, site, func, target, args, dty):
+    it = _as_iter(eng, st, args[0])
+    if it is None:
+        return None
+    return [(st, VIter("copied", None, 0, it, None))]
+
+
+@stub(r"^std::iter::Iterator::flatten$|std::iter::Iterator>::flatten$")
+def iter_flatten(eng, st, site, func, target, args, dty):
+    it = _as_iter(eng, st, args[0])
+    if it is None:
+        return None
+    return [(st, VIter("flatten", None, 0, it, None))]
+
+
+@stub(r"^core::slice::<impl \[T\]>::chunks_exact(_mut)?$")
+def slice_chunks_exact(eng, st, site, func, target, args, dty):
+    frame, bb, t = site
+    s = as_slice(eng, st, args[0])
+    n = args[1]
+    if s is None or not isinstance(n, VInt):
+        return None
+    ok = eng.ent(st, c_le(Lin.const(1), n.lin))
+    eng.oblig("panic-reach", frame, bb, eng.callee_label(func), ok, st, None if ok else "chunks_exact with a chunk size not proven non-zero", t.get("ln"))
+    if not n.lin.is_const() or n.lin.c <= 0:
+        return None
+    q, _r = eng.divmod_const(st, s.len, n.lin.c)
+    if target["name"].endswith("_mut"):
+        s = VSlice(s.base, s.start, s.len, s.elem, s.is_str, True)
+    return [(st, VIter("chunks", q, Lin.const(0), s, n.lin.c))]
+
+
+@stub(r"^std::iter::Iterator::count$|std::iter::Iterator>::count$")
+def iter_count(eng, st, site, func, target, args, dty):
+    """count() of a filter over a vector/slice whose predicate is 'element is variant k': zero iff no such element"""
+    from stubs2 import classify_pred
+    it = args[0]
+    us = eng.usize_ty()
+    if isinstance(it, VIter) and it.kind == "filter" and isinstance(it.src, VIter) and it.src.kind in ("slice", "vec"):
+        inner = it.src
+        if inner.kind == "slice":
+            src, ety, ln = inner.src.base, inner.src.elem, inner.src.len
+        else:
+            src = inner.src
+            vv = st.cells.get(src)
+            ety, ln = (vv.elem_ty, vv.len) if isinstance(vv, VVec) else (None, None)
+        k = classify_pred(eng, st, site, it.extra, ety, 2 if inner.kind == "slice" else True) if ety is not None else None
+        if k is not None and ln is not None:
+            st.emit(("hof", "any", src, it.extra.key if isinstance(it.extra, VClosure) else None, site_info(site)))
+            f = ("sym", "any:v%d:%r" % (k, src))
+            out = []
+            s0 = st.fork()
+            for s2 in eng.assume(s0, f, False):
+                out.append((s2, VInt(us, Lin.const(0))))
+            for s2 in eng.assume(st, f, True):
+                n = eng.new_int(us, "count", 1)
+                s2.cons.append(c_le(n.lin, ln))
+                out.append((s2, n))
+            return out
+    if isinstance(it, VIter) and isinstance(it.pos, Lin) and it.kind in ("slice", "vec", "chunks"):
+        if it.kind == "slice":
+            ln = it.src.len
+        elif it.kind == "chunks":
+            ln = it.items
+        else:
+            vv = st.cells.get(it.src)
+            ln = vv.len if isinstance(vv, VVec) else None
+        if ln is not None and eng.ent(st, c_le(it.pos, ln)):
+            return [(st, VInt(us, ln - it.pos))]
+    return None
+
+
+@stub(r"^std::vec::Vec::<T, A>::extend$|<std::vec::Vec<T, A> as std::iter::Extend<T>>::extend$|^std::iter::Extend::extend$")
+def vec_extend(eng, st, site, func, target, args, dty):
+    """v.extend(iter) == v.append(&mut iter.collect())"""
+    from stubs2 import iter_collect
+    cell, v = get_vec(eng, st, args[0])
+    if v is None:
+        return None
+    it = args[1]
+    if not isinstance(it, VIter):
+        it = _as_iter(eng, st, it)
+        if it is None:
+            return None
+    out = []
+    for s2, r in iter_collect(eng, st, site, func, target, [it], None):
+        tv = s2.cells.get(r.cell) if isinstance(r, VRef) else None
+        cur = s2.cells.get(cell)
+        if not isinstance(tv, VVec) or not isinstance(cur, VVec):
+            return None
+        if cur.len.is_const() and cur.len.c == 0:
+            s2.cells[cell] = VVec(tv.len, tv.segs, tv.elems, cur.name, cur.elem_ty or tv.elem_ty, None)
+        else:
+            s2.cells[cell] = VVec(cur.len + tv.len, None, None, cur.name, cur.elem_ty, None)
+        s2.emit(("extend", cell, r.cell, site_info(site)))
+        out.append((s2, UNIT))
+    return out
+
+
+@stub(r"^std::option::Option::<\(T, U\)>::unzip$")
+def option_unzip(eng, st, site, func, target, args, dty):
+    """Option<(A, B)> -> (Option<A>, Option<B>)"""
+    ta = tb = None
+    if dty is not None:
+        t = eng.T(dty)
+        if t["k"] == "tuple" and len(t["of"]) == 2:
+            ta, tb = t["of"]
+    out = []
+    for s2, vi, fs in split_variants(eng, st, args[0]):
+        if vi == 1:
+            tup = fs[0] if fs else None
+            if isinstance(tup, VAdt):
+                xs = eng.variant_fields(s2, tup, 0)
+                a, b = xs[0], xs[1]
+            else:
+                a, b = VUnknown(None, eng.fresh("unzip")), VUnknown(None, eng.fresh("unzip"))
+            out.append((s2, VAdt(dty, Lin.const(0), {0: (mk_option(eng, ta, True, a), mk_option(eng, tb, True, b))})))
+        else:
+            out.append((s2, VAdt(dty, Lin.const(0), {0: (mk_option(eng, ta, False), mk_option(eng, tb, False))})))
+    return out
+
+
+@stub(r"^std::option::Option::<std::result::Result<T, E>>::transpose$")
+def option_transpose(eng, st, site, func, target, args, dty):
+    """Option<Result<T, E>> -> Result<Option<T>, E>"""
+    oty = None
+    if dty is not None:
+        t = eng.T(dty)
+        if t["k"] == "adt" and t.get("args"):
+            oty = t["args"][0] if isinstance(t["args"][0], int) else None
+    out = []
+    for s2, vi, fs in split_variants(eng, st, args[0]):
+        if vi == 0:
+            out.append((s2, mk_result(eng, dty, True, mk_option(eng, oty, False))))
+            continue
+        inner = fs[0] if fs else VUnknown(None, eng.fresh("tr"))
+        for s3, v2, f2 in split_variants(eng, s2, inner):
+            x = f2[0] if f2 else VUnknown(None, eng.fresh("tr"))
+            if v2 == 0:
+                out.append((s3, mk_result(eng, dty, True, mk_option(eng, oty, True, x))))
+            else:
+                out.append((s3, mk_result(eng, dty, False, x)))
+    return out
